@@ -25,6 +25,80 @@ pub type Hook = Arc<dyn Fn(Call<'_>) + Send + Sync>;
 pub struct RecStore<S: Store> {
     pub inner: S,
     pub hook: Hook,
+    /// a removal (played by the harness in the pruner's role) that happens *between two store calls* of the
+    /// component under test: one shot, see `Armed`
+    pub armed: std::sync::Mutex<Option<Armed>>,
+    /// heights removed by an armed injection, in order (the harness logs them as `prune` events)
+    pub injected: std::sync::Mutex<Vec<u64>>,
+}
+
+/// Where the armed removal strikes.
+#[derive(Clone, Copy, Debug, PartialEq)]
+pub enum Point {
+    /// between a read of the stored ranges and a read of the pruned ranges (whichever comes second)
+    BetweenRangeReads,
+    /// right before `get_by_height(h)` answers, removing `h` itself when `h <= max`
+    HeightRead,
+}
+
+#[derive(Clone, Copy, Debug)]
+pub struct Armed {
+    pub point: Point,
+    /// BetweenRangeReads: the height to remove; HeightRead: the highest height that may be removed
+    pub height: u64,
+    pub seen_stored: bool,
+    pub seen_pruned: bool,
+}
+
+impl<S: Store> RecStore<S> {
+    pub fn new(inner: S, hook: Hook) -> Self {
+        RecStore { inner, hook, armed: Default::default(), injected: Default::default() }
+    }
+    pub fn arm(&self, point: Point, height: u64) {
+        *self.armed.lock().unwrap() = Some(Armed { point, height, seen_stored: false, seen_pruned: false });
+    }
+    async fn strike(&self, h: u64) {
+        if self.inner.has_at(h).await && self.inner.remove_height(h).await.is_ok() {
+            self.injected.lock().unwrap().push(h);
+        }
+    }
+    async fn on_range_read(&self, stored: bool) {
+        let target = {
+            let mut g = self.armed.lock().unwrap();
+            match g.as_mut() {
+                Some(a) if a.point == Point::BetweenRangeReads => {
+                    let other_seen = if stored { a.seen_pruned } else { a.seen_stored };
+                    if other_seen {
+                        let h = a.height;
+                        *g = None;
+                        Some(h)
+                    } else {
+                        if stored { a.seen_stored = true } else { a.seen_pruned = true }
+                        None
+                    }
+                }
+                _ => None,
+            }
+        };
+        if let Some(h) = target {
+            self.strike(h).await;
+        }
+    }
+    async fn on_height_read(&self, h: u64) {
+        let go = {
+            let mut g = self.armed.lock().unwrap();
+            match *g {
+                Some(a) if a.point == Point::HeightRead && h <= a.height => {
+                    *g = None;
+                    true
+                }
+                _ => false,
+            }
+        };
+        if go {
+            self.strike(h).await;
+        }
+    }
 }
 
 impl<S: Store> std::fmt::Debug for RecStore<S> {
@@ -44,6 +118,7 @@ impl<S: Store> Store for RecStore<S> {
         self.inner.get_by_hash(hash).await
     }
     async fn get_by_height(&self, height: u64) -> Result<ExtendedHeader> {
+        self.on_height_read(height).await;
         self.inner.get_by_height(height).await
     }
     async fn wait_new_head(&self) -> u64 {
@@ -84,12 +159,14 @@ impl<S: Store> Store for RecStore<S> {
         r
     }
     async fn get_stored_header_ranges(&self) -> Result<BlockRanges> {
+        self.on_range_read(true).await;
         self.inner.get_stored_header_ranges().await
     }
     async fn get_sampled_ranges(&self) -> Result<BlockRanges> {
         self.inner.get_sampled_ranges().await
     }
     async fn get_pruned_ranges(&self) -> Result<BlockRanges> {
+        self.on_range_read(false).await;
         self.inner.get_pruned_ranges().await
     }
     async fn remove_height(&self, height: u64) -> Result<()> {
